@@ -316,6 +316,14 @@ fn plain(n: &str) -> String {
 
 pub fn serve(args: &[String]) {
   let port = args[0].clone();
+  // a service whose harness is gone (killed, timed out) ends by itself
+  let parent = unsafe { libc::getppid() };
+  std::thread::spawn(move || loop {
+    std::thread::sleep(Duration::from_millis(500));
+    if unsafe { libc::getppid() } != parent {
+      std::process::exit(0);
+    }
+  });
   let _ = actix_web::rt::System::new("c18").block_on(dmntk_server::start_server(Some("127.0.0.1".into()), Some(port), None));
 }
 
@@ -1146,6 +1154,7 @@ pub fn run() {
     }
   }
   if servers.is_empty() {
+    drop(servers);
     run.finish();
   }
   let ops = protocol_alphabet(thorough);
@@ -1234,6 +1243,8 @@ pub fn run() {
   if let Some(s) = samples(thorough).get(77) {
     run.sample(json!({"echo_value": {"feel": s.feel, "expected_json": s.expected.show(), "class": s.class}}));
   }
+  // the service processes are ended before the report is written (finish() leaves the process without unwinding)
+  drop(servers);
   run.set("states", json!(protocol_sequences + cases.len()));
   run.set("transitions", json!(cnt.requests.load(Ordering::Relaxed)));
   run.set("traces_validated_against_impl", json!(cnt.compared.load(Ordering::Relaxed)));
